@@ -48,6 +48,8 @@ def rot_angles(lo_exp=-15):
         logmag(lo_exp, 0.0).map(lambda d: PI - d),             # towards pi
         fl(0.0, PI),
         fl(0.0, PI),
+        logmag(-9.3, -7.7) if lo_exp <= -10 else logmag(lo_exp, 0.49),   # so small that cos rounds to 1 and sin does not (5e-10 .. 2e-8)
+        logmag(-6.7, -5.8).map(lambda d: PI - d),               # within a tolerance-sized distance (2e-7 .. 1.6e-6) of a half turn
         decade_edge(max(lo_exp, -12)),                         # a hair either side of 10^-k from 0
         decade_edge(max(lo_exp, -12)).map(lambda d: PI - d),   # ... and from pi
     )
